@@ -397,9 +397,10 @@ func (b *Broker) RegisterPipeline(def Pipeline, opt ...Option) error {
 	// referenced by it.
 	b.releasePipelineNodes(g, def.PipelineID)
 
-	// Store the pipeline and then update the reference count of the nodes in that pipeline.
+	// Store the pipeline and then update the reference count of the nodes in
+	// that pipeline (once per node, no matter how often the pipeline lists it).
 	g.roots.Store(def.PipelineID, pipelineReg)
-	for _, id := range def.NodeIDs {
+	for id := range root.flatten() {
 		nodeUsage, ok := b.nodes[id]
 		// We can be optimistic about this as we would have already errored above.
 		if ok {
